@@ -26,7 +26,9 @@ def replay_state(chk, st, rng):
         chk._c17_args = cnta + 1
         if ns is not None and cnta % 2:
             ns = np.int64(ns)
-        th = None if st['thr'] == 'none' else 2.0
+        # (the documented meaning: singular values larger than threshold x the smallest one; 1 is the smallest sensible value -
+        # every singular value but the smallest is signal)
+        th = None if st['thr'] == 'none' else [2.0, 1, 50.0, 1.0][(cnta // 2) % 4]
         me = st['method'] if st['method'] != 'other' else 'dummy'
         case = {'NSIG': ns, 'threshold': th, 'criteria': st['crit'], 'method': me, 'accept': st['accept']}
         calls = [('eigen', lambda: eigen(x, P, NSIG=ns, method=me, threshold=th, NFFT=32, criteria=st['crit']))]
@@ -38,6 +40,11 @@ def replay_state(chk, st, rng):
         for cname, thunk in calls:
             ok, res = call_guard(thunk)
             chk.evaluations += 1
+            if st['accept'] and ok:
+                # noisy data: every singular value is positive, at least one noise vector remains, the pseudo-spectrum is finite
+                vals = np.asarray(res[0] if isinstance(res, tuple) else res, dtype=float)
+                if not np.all(np.isfinite(vals)) or not np.all(vals > 0):
+                    chk.violation('C17:args:%s:not-finite:%s:%s' % (cname, st['nsig'], st['thr']), '%s returns a pseudo-spectrum that is not finite and positive for %s' % (cname, case), case)
             if st['accept'] and not ok:
                 chk.violation('C17:args:%s:rejects-valid:%s:%s' % (cname, st['nsig'], st['thr']), '%s rejects valid arguments %s: %r' % (cname, case, res), case)
             if not st['accept'] and ok:
@@ -100,6 +107,8 @@ def obs_events(chk):
                 grid.append((K, P, N, 101 if (K + P + N) % 2 else 64, K % 2 == 0 and P != 16))
     if chk.tier == 'quick':
         grid = [g for i, g in enumerate(grid) if i % 2 == chk.seed % 2 or g[1] == g[0] + 1]
+    # long transforms: past 4096 (the library's default NFFT) and 8192; the thorough tier also past 16384
+    grid += [(2, 6, 64, 4099, False), (3, 8, 100, 8192, False), (2, 5, 40, 5001, True)] + ([] if chk.tier == 'quick' else [(2, 4, 48, 16411, False), (4, 9, 128, 8193, True)])
     for rep in range(reps + len(grid)):
         if rep < len(grid):
             K, P, N, nfft, real = grid[rep]
@@ -255,6 +264,12 @@ def run(chk):
     obs_events(chk)
     from .. import session
     session.run_for(chk, 'C17')      # Session.tla: results do not depend on earlier calls
+    from .. import quiet
+    quiet.run_for(chk, 'C17')      # Quiet.tla: asking for diagnostics is not an argument
+    from .. import units
+    units.run_for(chk, 'C17')      # Units.tla: the unit the data are expressed in is not part of the data
+    from .. import carrier
+    carrier.run_for(chk, 'C17')      # Carrier.tla: a sample denotes its value whatever container carries it
 
 
 def replay_case(chk, sig, case):
